@@ -67,7 +67,7 @@ func freshName(prefix string) string {
 func drawBatch(c *gen.Ctx, workload string, n int) ([]json.RawMessage, error) {
 	var buf bytes.Buffer
 	sub := &gen.Ctx{R: c.R, N: n, Wide: c.Wide, Out: bufio.NewWriter(&buf)}
-	wlctrl.Prop = ""
+	wlctrl.Prop = Prop // builder-ctrl's generators direct some cases by property (reference / key reuse for C14 / C13)
 	if err := gen.Workloads[workload](sub); err != nil {
 		return nil, err
 	}
